@@ -133,7 +133,7 @@ func genDispatch(c *ctx) string {
 	b.WriteString("def symbolBaseEnum : Bool := " + sbe + "\n")
 	b.WriteString("/-- hashes of the functions that form, coerce and hand on argument values (strings and comments stripped) -/\n")
 	b.WriteString("def argSkeleton : List (String × String) := [\n")
-	argFns := []string{"Input.CoerceIn", "Input.reflectSet", "Input.reflectSetKey", "List.CoerceIn", "NonNull.CoerceIn", "Root.formArgs", "Root.formReflectArgs", "Root.replaceArgVars", "Root.resolveField", "checkReflectArgs"}
+	argFns := []string{"Error.in", "Errors.in", "Input.CoerceIn", "Input.reflectSet", "Input.reflectSetKey", "List.CoerceIn", "Root.addError", "NonNull.CoerceIn", "Root.formArgs", "Root.formReflectArgs", "Root.replaceArgVars", "Root.resolveField", "checkReflectArgs"}
 	for i, name := range argFns {
 		h := "missing"
 		if fd := c.funcs[name]; fd != nil {
